@@ -72,6 +72,26 @@ def systematic(drv, tier):
     return out
 
 
+def cancel_queued(drv, tier):
+    """A runs (sequence or send), B is queued on the transaction lock and is cancelled before it obtains it, C is queued
+    behind B: A and C must still come out whole and the lock must end up free"""
+    out = []
+    for amode in ("sequence", "send"):
+        for bmode in ("sequence", "send"):
+            for cmode in ("send", "sequence"):
+                for cw in (1, 2, 3):
+                    for plan in ([1] * 30, [0, 1, 1, 0, 1, 1, 1, 1, 1, 1, 1, 1, 1, 1, 1, 1, 1, 1, 1, 1], [-1]):
+                        out.append({"driver": drv, "release_plan": list(plan), "outcomes": [["val", 11], ["none", 0], ["val", 99]],
+                                    "callers": [
+                                        {"name": "A", "mode": amode, "unit": [["q16", 1], ["cfg", 2], ["q16", 3]], "start": {"time": 0.0}},
+                                        {"name": "B", "mode": bmode, "unit": [["q16", 9], ["dapc", 10]], "start": {"writes": 1},
+                                         "cancel": {"writes": 1 + cw}},
+                                        {"name": "C", "mode": cmode, "unit": [["qdt6", 17] if drv != "sci" else ["q16", 17], ["dapc", 18]],
+                                         "start": {"writes": 1}}],
+                                    "tag": "cancel-queued"})
+    return out if tier == "thorough" else out[::2]
+
+
 def scenarios(tier, seed, drivers_=("tridonic", "hasseb", "luba", "sci")):
     rng = random.Random(seed)
     scs = []
@@ -83,10 +103,14 @@ def scenarios(tier, seed, drivers_=("tridonic", "hasseb", "luba", "sci")):
         if tier == "quick":
             sysm = sysm[::3]
         scs += sysm
+        scs += cancel_queued(drv, tier)
     return scs
 
 
 def _run_any(sc):
+    if sc.get("sync") == 2:
+        from . import c16
+        return c16.daliserver_session(sc)
     if sc.get("sync"):
         from . import c16
         return c16.sync_run(sc)
